@@ -63,6 +63,9 @@ void probe_free(void *p);
 /* ---------------- guard buffers ---------------- */
 /* [p,p+n) readable, read-only; p+n is on a PROT_NONE page.  release with guard_release */
 const unsigned char *guard_ro(const unsigned char *bytes, size_t n);
+/* fill the dead stack below the caller with a byte value chosen by probe_set_stack_fill (0 = leave it alone) */
+void probe_set_stack_fill(int byte);
+void probe_stack_fill(void);
 /* writable variant with a PROT_NONE page behind and canaries (or a PROT_NONE page) in front */
 unsigned char *guard_rw(const unsigned char *bytes, size_t n);
 /* 0 if canaries intact (or region not found) */
